@@ -1,3 +1,5 @@
+//! tx3-stackprobe front <file>: one hex-encoded source text per line; each is parsed and analysed on a
+//! 2 MiB thread (same reporting as below).
 //! tx3-stackprobe <file>: one hex-encoded IR payload per line; each is decoded with
 //! tx3_tir::encoding::from_bytes on a thread with Rust's default stack size for spawned threads (2 MiB),
 //! in an unoptimised build. Prints "<line> OK|ERR|PANIC" per payload and flushes, so that a stack
@@ -6,7 +8,8 @@
 use std::io::Write;
 
 fn main() {
-    let path = std::env::args().nth(1).expect("file");
+    let front = std::env::args().nth(1).as_deref() == Some("front");
+    let path = std::env::args().nth(if front { 2 } else { 1 }).expect("file");
     let text = std::fs::read_to_string(&path).expect("readable file");
     let out = std::io::stdout();
     for (i, line) in text.lines().enumerate() {
@@ -21,7 +24,20 @@ fn main() {
         }
         let r = std::thread::Builder::new()
             .stack_size(2 << 20)
-            .spawn(move || tx3_tir::encoding::from_bytes(&bytes, tx3_tir::encoding::TirVersion::V1Beta0).is_ok())
+            .spawn(move || {
+                if front {
+                    let src = String::from_utf8_lossy(&bytes).to_string();
+                    match tx3_lang::parsing::parse_string(&src) {
+                        Ok(mut p) => {
+                            let _ = tx3_lang::analyzing::analyze(&mut p);
+                            true
+                        }
+                        Err(_) => false,
+                    }
+                } else {
+                    tx3_tir::encoding::from_bytes(&bytes, tx3_tir::encoding::TirVersion::V1Beta0).is_ok()
+                }
+            })
             .expect("spawn")
             .join();
         let mut o = out.lock();
